@@ -13,15 +13,21 @@
    dh <key rsa|ec> <supp bits> <active bits> <ops> <suite hex csv>      enable/disable HISTORY through the public API:
         ops = csv of d:<id> e:<id> (matrixSslSetCipherSuiteEnabledStatus(ssl, id, PS_FALSE/PS_TRUE)) and D:<id> E:<id> (ssl == NULL, global)
         -> rc=<0|L|F,...> slots=<hex csv of ssl->disabledCiphers[]> gcs=<0|1 per suite> ccs=<rc>:<ident>      (global state is reset afterwards)
+   sg <configured ecFlags hex> <curve id csv|->    -> sg=<rc>:<ecFlags hex>:<ecCurveId>   (tlsParseSupportedGroups on a server ssl_t)
+   psa <our sigalgs hex csv> <peer list hex csv>   -> psa=<rc>:<hashSigAlg hex>:<peerSigAlg hex>   (tlsParseSignatureAlgorithms)
+   csa <cert sig OID> <key alg OID> <key bytes> <peer mask>   -> csa=<OID|U>      (chooseSigAlgInt)
    enc <enc16 hex>                                 -> <ver bits>                 (psVerFromEncoding)
    dv <c|s>                                        -> supp:prio                  (versions of a session created without options)
-   dscsv <client 10|12> <server 10|12|both> <scsv 0|1>   one DTLS handshake in memory (datagram per flight):
-                                                   -> dscsv:c=<done>,<ver>,<err> s=<done>,<ver>,<err>
+   dscsv <client 10|12> <server 10|12|both> <scsv 0|1> [client ecFlags hex] [server ecFlags hex]
+                                                   one DTLS handshake in memory (datagram per flight):
+                                                   -> dscsv:c=<done>,<ver>,<err> s=<done>,<ver>,<err> srvsupp=.. ec=<client: SKE curve>,<server: chosen curve>,<suite>
 
    LIVE two-peer sessions (sess.h):
    new k=v ...   cv=<minor list in priority order> sv=<..> suite=<hex,...> (<=32) key=rsa|ec cems=-1|0|1 sems=-1|0|1
                  scsv=0|1 cgrp=<hex,...> sgrp=<hex,...> csig=<hex,...> ssig=<hex,...> sdis=<hex,...> nks=<n> seed=<n>
                  sops=<d:id,e:id,...>  enable/disable history applied to the server session (after sdis)
+                 cec=<hex> sec=<hex>   per-session ecFlags (sslSessOpts_t.ecFlags) of client / server
+   ec                         -> ec:c=<curve named in ServerKeyExchange>,<ecFlags> s=<ecInfo.ecCurveId>,<ecFlags>
    hs / step <c2s|s2c> [n] / st / q / inj <c|s> <hex>   as in h_sess
    gethead <c2s|s2c>          -> head:<hex of the first queued record>|none
    sethead <c2s|s2c> <hex>    replace the first queued record by these bytes (any length)
@@ -220,6 +226,39 @@ static void do_dh(char **a, int n)
     printf(" ccs=%d:%04x", rc < 0 ? -1 : 0, (rc < 0 || !s->cipher) ? 0 : s->cipher->ident);
     matrixSslDeleteSession(s); reset_global();
 }
+extern int32_t tlsParseSupportedGroups(ssl_t *ssl, const unsigned char *c, unsigned short extLen);
+extern int32_t tlsParseSignatureAlgorithms(ssl_t *ssl, const unsigned char *c, unsigned short extLen);
+static void do_sg(char **a, int n)
+{
+    if (n < 3) { printf("BADCASE"); return; }
+    uint32_t ids[64]; int k = csv_u32(a[2], ids, 60, 10); unsigned char ext[2 + 128];
+    ssl_t *s = blank_ssl(1);
+    s->ecInfo.ecFlags = (uint32_t) strtoul(a[1], NULL, 16);
+    ext[0] = (unsigned char) ((2 * k) >> 8); ext[1] = (unsigned char) (2 * k);
+    for (int i = 0; i < k; i++) { ext[2 + 2*i] = (unsigned char) (ids[i] >> 8); ext[3 + 2*i] = (unsigned char) ids[i]; }
+    int32_t rc = tlsParseSupportedGroups(s, ext, (unsigned short) (2 + 2 * k));
+    printf("sg=%d:%x:%u", rc < 0 ? -1 : 0, (unsigned) s->ecInfo.ecFlags, (unsigned) s->ecInfo.ecCurveId);
+    free(s);
+}
+static void do_psa(char **a, int n)
+{
+    if (n < 3) { printf("BADCASE"); return; }
+    uint32_t sup[40], l[64]; int ns = csv_u32(a[1], sup, TLS_MAX_SIGNATURE_ALGORITHMS, 16), k = csv_u32(a[2], l, 60, 16); unsigned char ext[2 + 128];
+    ssl_t *s = blank_ssl(1);
+    for (int i = 0; i < ns; i++) s->supportedSigAlgs[i] = (uint16_t) sup[i];
+    s->supportedSigAlgsLen = (psSize_t) ns;
+    ext[0] = (unsigned char) ((2 * k) >> 8); ext[1] = (unsigned char) (2 * k);
+    for (int i = 0; i < k; i++) { ext[2 + 2*i] = (unsigned char) (l[i] >> 8); ext[3 + 2*i] = (unsigned char) l[i]; }
+    int32_t rc = tlsParseSignatureAlgorithms(s, ext, (unsigned short) (2 + 2 * k));
+    printf("psa=%d:%x:%x", rc < 0 ? -1 : 0, (unsigned) s->hashSigAlg, (unsigned) s->peerSigAlg);
+    free(s);
+}
+static void do_csa(char **a, int n)
+{
+    if (n < 5) { printf("BADCASE"); return; }
+    int32_t r = chooseSigAlgInt((int32_t) atoi(a[1]), NULL, (psSize_t) atoi(a[3]), (int32_t) atoi(a[2]), (uint16_t) strtoul(a[4], NULL, 10));
+    if (r < 0) printf("csa=U"); else printf("csa=%d", r);
+}
 static void do_dv(char **a, int n)
 {
     sslSessOpts_t so; memset(&so, 0, sizeof so); ssl_t *s = NULL; sslKeys_t *k = NULL;
@@ -260,12 +299,14 @@ static void do_dscsv(char **a, int n)
     matrixSslNewKeys(&ckk, NULL); load_identity(ckk, 0, 0, 1);
     memset(&so, 0, sizeof so);
     so.versionFlag = SSL_FLAGS_DTLS | (strcmp(a[2], "10") ? SSL_FLAGS_TLS_1_2 : SSL_FLAGS_TLS_1_1);
+    if (n >= 6) so.ecFlags = (int32) strtoul(a[5], NULL, 16);
     int32 rc = matrixSslNewServerSession(&s, sk, NULL, &so);
     if (rc < 0) { printf("dscsv:snew=%d", rc); goto out; }
     if (!strcmp(a[2], "12")) { s->supportedVersions = v_dtls_1_2; s->supportedVersionsPriority[0] = v_dtls_1_2; s->supportedVersionsPriorityLen = 1; }
     memset(&so, 0, sizeof so);
     so.versionFlag = SSL_FLAGS_DTLS | (strcmp(a[1], "10") ? SSL_FLAGS_TLS_1_2 : SSL_FLAGS_TLS_1_1);
     so.fallbackScsv = (short) atoi(a[3]);
+    if (n >= 5) so.ecFlags = (int32) strtoul(a[4], NULL, 16);
     rc = matrixSslNewClientSession(&c, ckk, NULL, NULL, 0, NULL, NULL, NULL, NULL, &so);
     if (rc != MATRIXSSL_REQUEST_SEND) { printf("dscsv:cnew=%d", rc); goto out; }
     {
@@ -277,6 +318,7 @@ static void do_dscsv(char **a, int n)
         }
         printf("dscsv:c=%d,%u,%d s=%d,%u,%d srvsupp=%u", matrixSslHandshakeIsComplete(c) ? 1 : 0, (unsigned) VER_GET_RAW(c->activeVersion), (int) c->err,
                matrixSslHandshakeIsComplete(s) ? 1 : 0, (unsigned) VER_GET_RAW(s->activeVersion), (int) s->err, (unsigned) s->supportedVersions);
+        printf(" ec=%u,%u,%04x", (unsigned) c->sec.peerCurveId, (unsigned) s->ecInfo.ecCurveId, s->cipher ? (unsigned) s->cipher->ident : 0u);
     }
 out:
     if (c) matrixSslDeleteSession(c); if (s) matrixSslDeleteSession(s);
@@ -289,7 +331,7 @@ typedef struct {
     psCipher16_t suites[32]; int nsuites;
     int key, cems, sems, scsv, nks;
     uint32_t cgrp[8], sgrp[8], csig[16], ssig[16], sdis[32]; int ncgrp, nsgrp, ncsig, nssig, nsdis;
-    uint64_t seed; const char *sops;
+    uint64_t seed; const char *sops; uint32_t cec, sec;      /* per-session ecFlags (0 = all compiled-in curves) */
 } ncfg_t;
 
 static int neg_new(ncfg_t *c)
@@ -311,6 +353,7 @@ static int neg_new(ncfg_t *c)
     for (int i = 0; i < c->nsver; i++) v[i] = minor2ver(c->sver[i]);
     if (c->nsver && (rc = matrixSslSessOptsSetServerTlsVersions(&so, v, c->nsver)) < 0) return rc - 3000;
     so.extendedMasterSecret = (short) c->sems;
+    so.ecFlags = (int32) c->sec;
     if (c->nsgrp) { for (int i = 0; i < c->nsgrp; i++) g16[i] = (uint16_t) c->sgrp[i]; if ((rc = matrixSslSessOptsSetKeyExGroups(&so, g16, (psSize_t) c->nsgrp, 1)) < 0) return rc - 3100; }
     if (c->nssig) { for (int i = 0; i < c->nssig; i++) g16[i] = (uint16_t) c->ssig[i]; if ((rc = matrixSslSessOptsSetSigAlgs(&so, g16, (psSize_t) c->nssig)) < 0) return rc - 3200; }
     rc = matrixSslNewServerSession(&g_s.ssl, g_s.keys, NULL, &so);
@@ -323,6 +366,7 @@ static int neg_new(ncfg_t *c)
     if (c->ncver && (rc = matrixSslSessOptsSetClientTlsVersions(&so, v, c->ncver)) < 0) return rc - 5000;
     so.extendedMasterSecret = (short) c->cems;
     so.fallbackScsv = (short) c->scsv;
+    so.ecFlags = (int32) c->cec;
     if (c->ncgrp) { for (int i = 0; i < c->ncgrp; i++) g16[i] = (uint16_t) c->cgrp[i]; if ((rc = matrixSslSessOptsSetKeyExGroups(&so, g16, (psSize_t) c->ncgrp, (psSize_t) (c->nks ? c->nks : 1))) < 0) return rc - 5100; }
     if (c->ncsig) { for (int i = 0; i < c->ncsig; i++) g16[i] = (uint16_t) c->csig[i]; if ((rc = matrixSslSessOptsSetSigAlgs(&so, g16, (psSize_t) c->ncsig)) < 0) return rc - 5200; }
     rc = matrixSslNewClientSession(&g_c.ssl, g_c.keys, NULL, c->nsuites ? c->suites : NULL, (uint8_t) c->nsuites,
@@ -352,6 +396,8 @@ static void do_new(char **a, int n)
         else if (!strcmp(a[i], "sdis")) c.nsdis = csv_u32(v, c.sdis, 32, 16);
         else if (!strcmp(a[i], "seed")) c.seed = strtoull(v, NULL, 10);
         else if (!strcmp(a[i], "sops")) c.sops = v;
+        else if (!strcmp(a[i], "cec")) c.cec = (uint32_t) strtoul(v, NULL, 16);
+        else if (!strcmp(a[i], "sec")) c.sec = (uint32_t) strtoul(v, NULL, 16);
     }
     int rc = neg_new(&c);
     if (rc == 0) { g_quiet = 1; flush_out(&g_c); g_quiet = 0; }
@@ -405,11 +451,23 @@ static void run_cmd(char **a, int n)
     else if (!strcmp(a[0], "ccs")) do_ccs(a, n);
     else if (!strcmp(a[0], "dv")) do_dv(a, n);
     else if (!strcmp(a[0], "dh")) do_dh(a, n);
+    else if (!strcmp(a[0], "sg")) do_sg(a, n);
+    else if (!strcmp(a[0], "psa")) do_psa(a, n);
+    else if (!strcmp(a[0], "csa")) do_csa(a, n);
     else if (!strcmp(a[0], "dscsv")) do_dscsv(a, n);
     else if (!strcmp(a[0], "enc") && n >= 2) printf("enc=%u", (unsigned) psVerFromEncoding((uint16_t) strtoul(a[1], NULL, 16)));
     else if (!strcmp(a[0], "new")) do_new(a + 1, n - 1);
     else if (!strcmp(a[0], "hs")) { pump(1); printf("hs:c="); print_snap(&g_c); printf(" s="); print_snap(&g_s); }
     else if (!strcmp(a[0], "neg")) { printf("neg:c="); print_neg(&g_c); printf(" s="); print_neg(&g_s); }
+    else if (!strcmp(a[0], "ec")) {        /* <= TLS 1.2 ECDHE curve state: client = curve named in ServerKeyExchange, server = curve picked from the ClientHello */
+        printf("ec:c=%u,%x s=%u,%x", g_c.ssl ? (unsigned) g_c.ssl->sec.peerCurveId : 0u, g_c.ssl ? (unsigned) g_c.ssl->ecInfo.ecFlags : 0u,
+               g_s.ssl ? (unsigned) g_s.ssl->ecInfo.ecCurveId : 0u, g_s.ssl ? (unsigned) g_s.ssl->ecInfo.ecFlags : 0u);
+        if (g_c.ssl) {      /* what the client's hello was built from */
+            printf(" cg13="); int f = 1; for (int i = 0; i < TLS_1_3_MAX_GROUPS; i++) if (g_c.ssl->tls13SupportedGroups[i]) { printf("%s%u", f ? "" : ",", (unsigned) g_c.ssl->tls13SupportedGroups[i]); f = 0; } if (f) printf("-");
+            printf(" csa="); for (unsigned i = 0; i < g_c.ssl->supportedSigAlgsLen; i++) printf("%s%04x", i ? "," : "", (unsigned) g_c.ssl->supportedSigAlgs[i]); if (!g_c.ssl->supportedSigAlgsLen) printf("-");
+            printf(" ckx=%d%d", (g_c.ssl->flags & SSL_FLAGS_DHE_WITH_RSA) ? 1 : 0, (g_c.ssl->flags & SSL_FLAGS_DHE_WITH_DSA) ? 1 : 0);
+        }
+    }
     else if (!strcmp(a[0], "cfgv")) { printf("cfgv:c="); print_cfgv(&g_c); printf(" s="); print_cfgv(&g_s); }
     else if (!strcmp(a[0], "step") && n >= 2) {
         int k = n >= 3 ? atoi(a[2]) : 1, d = dirof(a[1]);
